@@ -352,8 +352,34 @@ InfoOpStep(cfg, cer, store, nnew) ==
     CASE cer.pc = "begin" -> InfoStep(cfg, cer, store, nnew, "info.done")
       [] cer.pc = "info.done" -> Ended(cer, store, nnew, [EndErr(0) EXCEPT !.ok = TRUE])
 
+(* U2F (u2f.rs): register saves a counter-bearing credential for (application, key handle) without any prompt;
+   authenticate looks the key handle up under the application and signs with the caller's counter and presence byte *)
+U2fOther == 127      \* U2FError::Other
+
+U2fStep(cfg, cer, store, nnew) ==
+    CASE cer.pc = "begin" /\ cer.op = "reg" ->
+           LET c == [id |-> cer.req.handle, rp |-> cer.req.rp, user |-> "none", ctr |-> Ctr(0, 0), hm |-> "none"]
+               r == WriteStep(cfg, [cer EXCEPT !.newc = c, !.req = [cer.req EXCEPT !.rk = FALSE, !.up = FALSE, !.uv = FALSE]],
+                              store, nnew, "u2f.saved", "save", c)
+           IN r
+      [] cer.pc = "u2f.saved" ->
+           IF cer.serr # 0 THEN Ended(cer, store, nnew, EndErr(U2fOther))
+           ELSE Ended(cer, store, nnew, [EndErr(0) EXCEPT !.ok = TRUE, !.cred = cer.newc.id, !.sigkey = cer.newc.id,
+                                          !.rphash = cer.req.rp, !.stored = Lookup(store, cer.newc.id), !.keymatch = TRUE,
+                                          !.ctr = Ctr(0, 0)])
+      [] cer.pc = "begin" /\ cer.op = "auth" ->
+           FindStep(cfg, cer, store, nnew, "u2f.found", TRUE, <<cer.req.handle>>, cer.req.rp,
+                    LAMBDA c, r : [c EXCEPT !.found = IF r.ok /\ r.found # <<>> THEN r.found[1] ELSE NoCred,
+                                            !.pend = IF r.ok /\ r.found # <<>> THEN 0 ELSE U2fOther])
+      [] cer.pc = "u2f.found" ->
+           IF cer.pend # 0 THEN Ended(cer, store, nnew, EndErr(U2fOther))
+           ELSE Ended(cer, store, nnew, [EndErr(0) EXCEPT !.ok = TRUE, !.cred = cer.found.id, !.sigkey = cer.found.id,
+                                          !.rphash = cer.req.rp, !.stored = Lookup(store, cer.found.id),
+                                          !.ctr = cer.req.counter, !.flags = cer.req.presence])
+
 Step(cfg, cer, store, nnew) ==
-    CASE cer.op = "mc" -> McStep(cfg, cer, store, nnew)
+    CASE cer.api = "u2f" -> U2fStep(cfg, cer, store, nnew)
+      [] cer.op = "mc" -> McStep(cfg, cer, store, nnew)
       [] cer.op = "ga" -> GaStep(cfg, cer, store, nnew)
       [] cer.op = "info" -> InfoOpStep(cfg, cer, store, nnew)
 
